@@ -67,7 +67,8 @@ class Interp:
 
     LOG_PREFIXES = ("_LOGGER.", "logging.")
 
-    def __init__(self, env, call_hook=None, on_store=None, loop_hook=None, strict=False):
+    def __init__(self, env, call_hook=None, on_store=None, loop_hook=None, strict=False, name_hook=None):
+        self.name_hook = name_hook  # resolves free names / attributes of free names (class references, builtins) or returns NotImplemented
         self.strict = strict  # concrete evaluation: a failed lookup is the program's own KeyError/IndexError, not a missing domain
         self.env = dict(env)
         self.call_hook = call_hook
@@ -95,6 +96,11 @@ class Interp:
             return vals if isinstance(node, ast.List) else tuple(vals) if isinstance(node, ast.Tuple) else set(vals)
         if isinstance(node, ast.Dict) and all(k is not None for k in node.keys):
             return {self.ev(k): self.ev(v) for k, v in zip(node.keys, node.values)}
+        if self.name_hook is not None and (isinstance(node, ast.Name) or (isinstance(node, ast.Attribute) and isinstance(node.value, ast.Name)
+                                                                           and node.value.id not in self.env)):
+            got = self.name_hook(self, node)
+            if got is not NotImplemented:
+                return got
         if isinstance(node, ast.Name):
             # a module-level constant of the module the expression stands in (its own or imported from a sibling module)
             mod = getattr(node, "_module", None)
